@@ -847,10 +847,13 @@ LOSSY_EXEMPT = {
 }
 
 
-def rule_value_preserving(rep: Report, repo: Repo):
+def rule_value_preserving(rep: Report, repo: Repo, modules=None):
+    """`modules`: restrict the inventory to these modules (a property about one component is not answerable for conversions elsewhere)."""
     R = "E4.lossless"
     n = 0
     for mod in ("series", "algorithm_parsing", "block_diagonalization", "linalg", "second_quantization"):
+        if modules is not None and mod not in modules:
+            continue
         tree = repo.trees[mod]
         for node in ast.walk(tree):
             what = None
@@ -913,6 +916,8 @@ def rule_value_preserving(rep: Report, repo: Repo):
     # a buffer that inherits its dtype from an input (zeros_like / empty_like / ones_like / full_like without dtype=) and is then
     # filled with quotients: for an integer input every quotient is truncated on assignment
     for mod in ("series", "algorithm_parsing", "block_diagonalization", "linalg", "second_quantization", "kpm"):
+        if modules is not None and mod not in modules:
+            continue
         for fn in [x for x in ast.walk(repo.trees[mod]) if isinstance(x, ast.FunctionDef)]:
             bufs = {}
             for st in own_nodes(fn):
@@ -931,8 +936,10 @@ def rule_value_preserving(rep: Report, repo: Repo):
                              f"for an integer `{src}` the buffer is integer and `{norm(st.value)[:50]}` is truncated towards zero on assignment; "
                              "give the buffer a floating dtype (np.result_type(..., float)) or compute with np.where", repo.loc(mod, st))
     rep.count("E4.lossless.sites", n)
-    if n == 0:
+    if n == 0 and modules is None:
         raise AnalysisError(R, "no conversion site found at all (the inventory above lists the known exact ones)")
+    if n == 0:
+        rep.ok(R, f"no conversion of a computed value in {', '.join(modules)}", "nothing to decide: the module contains no cast, rounding or projection", "")
 
 
 # ---------------------------------------------------------------------------
